@@ -333,11 +333,7 @@ def oracle(c, obs):
 
 
 def known_key(c, v, known):
-    for f in known:
-        m = f["match"]
-        if all(v.get(k) == val for k, val in m.items()):
-            return f["key"]
-    return None
+    return common.known_key(c, v, known)
 
 
 def classify(c, obs):
